@@ -95,7 +95,8 @@ type rec struct {
 	RHasAuth  bool   `json:"rhasauth"`  // the response as delivered: authenticator present,
 	RExpected bool   `json:"rexpected"` // response SPI and CMAC,
 	RMacOK    bool   `json:"rmacok"`    // MAC verifies
-	Cli       string `json:"cli"`       // "verified" | "unauth" | "reject" | "other" | "-"
+	Cli       string `json:"cli"`       // "accept" | "refuse" | "other" | "-"  (from the return of the client's call, see e2e_test.go)
+	CliLog    string `json:"clilog"`    // optional: "verified" | "unauth" | "reject" | "other" according to the client's log; "" = no known record seen
 	CliErr    string `json:"clierr"`
 	// key-regime sequences (k = "key"): position, what the DRKey daemon saw, and what
 	// ScionAuth.tla's behaviour says for this step
